@@ -594,7 +594,7 @@ H_SET = {
 }
 H_READ = ["pack", "pack(recalc_crc=False)", "calc_crc", "to_space_packet", "decode-another", "setters-on-a-twin"]
 H_EVENTS = H_READ + ["%s=%d" % (k, i) for k in ("apid", "seq_flags", "tm_data") for i in range(len(H_SET[k]))]
-H_MODES = ["constructed", "decoded", "from_composite_fields", "Service17Tm()", "Service17Tm.unpack"]
+H_MODES = ["constructed", "decoded", "from_composite_fields", "Service17Tm()", "Service17Tm.unpack", "constructed(bytearray)", "decoded(bytearray)"]  # the last two: timestamp / source data / receive buffer handed over as bytearray (mutable: in-place aliasing shows only here)
 H_KEYS = ("service", "subservice", "timestamp", "source_data", "apid", "seq_count", "msg_counter", "time_ref", "dest_id", "version", "seq_flags")
 H_OTHER = dict(service=0xC3, subservice=0x3C, timestamp=b"\xa1\xa2\xa3\xa4\xa5", source_data=b"\xde\xad\xbe\xef\x99\x77", apid=0x123, seq_count=0x0ABC,
                msg_counter=0x2468, time_ref=0b0110, dest_id=0x1357, version=0b101, seq_flags=3)
@@ -645,6 +645,14 @@ def h_make(m, mode, v):
         return o, o
     if mode == "from_composite_fields":
         o = h_twin(m, v)
+        return o, o
+    if mode == "constructed(bytearray)":
+        o = m.PusTm(service=v["service"], subservice=v["subservice"], timestamp=bytearray(v["timestamp"]), source_data=bytearray(v["source_data"]), apid=v["apid"],
+                    seq_count=v["seq_count"], message_counter=v["msg_counter"], space_time_ref=v["time_ref"], destination_id=v["dest_id"],
+                    packet_version=v["version"])
+        return o, o
+    if mode == "decoded(bytearray)":
+        o = m.PusTm.unpack(bytearray(h_ref(v)), len(v["timestamp"]))
         return o, o
     if mode == "Service17Tm()":
         w = _s17()(apid=v["apid"], subservice=v["subservice"], timestamp=v["timestamp"], ssc=v["seq_count"], source_data=v["source_data"],
@@ -711,7 +719,7 @@ def run_history(rec: Rec, k, T, mode, events, nontrivial=True):
         o, w = h_make(m, mode, model)
     except Exception as e:
         return bad("start=%s/exception/%s" % (mode, type(e).__name__), repr(e), None)
-    decoded = mode in ("decoded", "Service17Tm.unpack")
+    decoded = mode in ("decoded", "Service17Tm.unpack", "decoded(bytearray)")
     crc = "fresh" if decoded else "none"
     pure("start=" + mode)
     if decoded and (o.crc16 is None or bytes(o.crc16) != h_ref(model)[-2:]):
